@@ -313,7 +313,11 @@ class Check:
         }
         if self.exhaustive is not None:
             cov["exhaustive"] = self.exhaustive
-        cov.update(self.extra)
+        for k, v in self.extra.items():
+            # keys the evidence schema reserves keep the type it prescribes (a stray dict would invalidate the file)
+            if k in ("programs", "obligations", "discharged", "disagreements_checked") and not isinstance(v, int):
+                k = k + "_detail"
+            cov[k] = v
         if self.known_hits:
             cov["known_findings_hit"] = {k: len(v) for k, v in self.known_hits.items()}
         ev = {
